@@ -23,6 +23,8 @@ def check(ctx, run):
     numcodec.r18_2(ctx, run, rule='R01.4/R18.2')
     layout.r01_5(ctx, run)
     layout.r01_7(ctx, run)
+    from rules import units as _units
+    _units.check(ctx, run, 'R01.9/R05.15', only=lambda p_: p_.startswith('de::'))
     return report.finish(run, level='other', explanation=EXPLANATION, assumptions=ASSUME)
 
 
